@@ -175,7 +175,7 @@ def run(ctx):
         r = rnd.random()
         s = 0 if r < 0.4 else (H - 3 if r < 0.5 else rnd.randrange(0, H - 4))
         judge_wallet(ctx, {"seed": gen.rbytes(rnd, rnd.choice([16, 32, 64])), "testnet": bool((j + ctx.shard) & 1),
-                           "account": rnd.choice([0, 1, H - 1, rnd.randrange(0, H)]), "start": s, "end": s + rnd.randrange(0, 4)})
+                           "account": gen.account(rnd), "start": s, "end": s + rnd.randrange(0, 4)})
     vers = sorted(rb32.SLIP132_INV)
     for j0 in range(ctx.scale(96, 3000)):
         j = j0 * ctx.nshards + ctx.shard
